@@ -540,6 +540,23 @@ func (fc *FCtx) specCall(n *SNode, env *Env) Val {
 	case "enc":
 		evalArgs()
 		return Val{T: app(fc.encFn(args[0].S), args[0].T), S: fc.U.BzSort()}
+	case "addrstr":
+		evalArgs()
+		fc.bech32Fns()
+		return Val{T: app("addr_string", args[0].T), S: SStr}
+	case "bech32addr":
+		evalArgs()
+		fc.bech32Fns()
+		return Val{T: app("bech32_addr", args[0].T), S: fc.U.opaque("Addr")}
+	case "bech32ok":
+		evalArgs()
+		fc.bech32Fns()
+		return Val{T: "(= " + app("bech32_err", args[0].T) + " 0)", S: SBool}
+	case "pcount":
+		evalArgs()
+		fc.iterSort()
+		fc.U.Fun("pcount", []*Sort{fc.U.StoreSort(), fc.U.BzSort()}, SInt)
+		return Val{T: fmt.Sprintf("(pcount %s %s)", args[0].T, fc.toBz(args[1])), S: SInt}
 	case "isolated":
 		evalArgs()
 		suf, ok := fc.ctxSuffixOf[args[0].T]
